@@ -94,7 +94,9 @@ def scenarios():
     from vf import genlab as G
     failures, cases = [], 0
     grid = [("acme.lab.v1", "acme/lab_v1"), ("acme.cloud.lab.v1beta1", "acme/cloud/lab_v1beta1"), ("a.b.c.lab.v1p1beta1", "a/b/c/lab_v1p1beta1"),
-            ("acme.lab", "acme/lab"), ("acme.lab.v2alpha", "acme/lab_v2alpha")]
+            ("acme.lab", "acme/lab"), ("acme.lab.v2alpha", "acme/lab_v2alpha"),
+            # every target file BELOW the version segment: name / namespace / version come from the part up to the version, nothing moves into a sub-package
+            ("acme.lab.v1.admin", "acme/lab_v1")]
     for package, pdir in grid:
         for files in (("things.proto",), ("things.proto", "more_things.proto", "OddName.v2.proto", "import.proto", "retry.proto", "metrics_core.proto", "metrics.core.proto")):
             cases += 1
